@@ -79,16 +79,18 @@ def run(ctx) -> None:
     ctx.rule("C05.magnitude", "T5: cut-offs are applied to magnitudes", floor=5)
     ctx.rule("C05.nonedefault", "T5: optional arguments are defaulted only when None", floor=3)
     ctx.rule("C05.formulation", "formulation: every FVA solve is the documented problem (oracle evaluation over the LP model)", floor=7)
-    fa.check_fva_step(ctx, "C05.step")
-    try:
-        fvaform.check_fva_formulation(ctx, "C05.formulation")
-    except AnalysisError as exc:
-        ctx.defer(str(exc))
-    fa.check_orientation(ctx, "C05.orient", ORIENT_SITES)
-    fa.check_pin_unconditional(ctx, "C05.pin")
-    fa.check_capture(ctx, "C05.capture", CAPTURE_SITES)
-    check_sense(ctx, "C05.sense")
-    fa.check_chunk(ctx, "C05.chunk", [fa.FVA])
-    fa.check_magnitude(ctx, "C05.magnitude", ["cobra.flux_analysis.variability", "cobra.flux_analysis.loopless"])
+    ctx.guard(fa.check_fva_step, ctx, "C05.step")
+    ctx.guard(fvaform.check_fva_formulation, ctx, "C05.formulation")
+    ctx.guard(fa.check_orientation, ctx, "C05.orient", ORIENT_SITES, formulation_rule={"flux_variability_analysis": "C05.formulation", "loopless_solution": "C17.formulation", "fix_objective_as_constraint": "C05.formulation"})
+    ctx.guard(fa.check_pin_unconditional, ctx, "C05.pin")
+    ctx.guard(fa.check_capture, ctx, "C05.capture", CAPTURE_SITES)
+    ctx.guard(check_sense, ctx, "C05.sense")
+    ctx.guard(fa.check_chunk, ctx, "C05.chunk", [fa.FVA])
+    ctx.guard(fa.check_magnitude, ctx, "C05.magnitude", ["cobra.flux_analysis.variability", "cobra.flux_analysis.loopless"])
+    # the loopless option rests on loopless_solution (shared with C17)
+    from . import loopform
+
+    ctx.rule("C17.formulation", "formulation: loopless_solution poses the documented cycle-removal problem (shared with C17)", floor=8)
+    ctx.guard(loopform.check_loopless_solution, ctx, "C17.formulation")
     fns = [ctx.prog.func(*fa.FVA), ctx.prog.func("cobra.flux_analysis.variability", "find_blocked_reactions"), ctx.prog.func("cobra.flux_analysis.helpers", "normalize_cutoff")]
     check_none_defaults(ctx, "C05.nonedefault", fns)
